@@ -25,6 +25,9 @@ var mutNames = []string{"bitflip", "truncate", "extend", "version", "type", "sen
 // keys" field so far, MAC keys of retired key pairs, and keys of earlier sessions.
 func (o *Omni) attackerKeys(sender int) [][]byte {
 	var ks [][]byte
+	if o == nil {
+		return [][]byte{make([]byte, 20)}
+	}
 	add := func(k []byte) {
 		for _, x := range ks {
 			if bytes.Equal(x, k) {
